@@ -55,9 +55,12 @@ func propWith(t *rapid.T, shape string) {
 	b := vidx.New(ref, cfgB)
 	orderA := dagen.GenOrder(t, ref, "orderA")
 	orderB := dagen.GenOrder(t, ref, "orderB")
-	// index B completely in its own order first
-	for _, i := range orderB {
-		if err := b.Add(i); err != nil {
+	// index B completely in its own order first; both indexes are driven through drawn sessions (flush periods,
+	// reloads from the database after a flush)
+	sessA := vidx.DrawSession(t, "sessionA")
+	sessB := vidx.DrawSession(t, "sessionB")
+	for k, i := range orderB {
+		if _, err := b.AddS(t, sessB, i, k == len(orderB)-1); err != nil {
 			t.Fatalf("index B: Add(e%d): %v", i, err)
 		}
 	}
@@ -82,7 +85,7 @@ func propWith(t *rapid.T, shape string) {
 	// index A is filled step by step with queries over the events added so far interleaved
 	var added []int
 	for step, i := range orderA {
-		if err := a.Add(i); err != nil {
+		if _, err := a.AddS(t, sessA, i, step == n-1); err != nil {
 			t.Fatalf("index A: Add(e%d): %v", i, err)
 		}
 		added = append(added, i)
@@ -219,6 +222,9 @@ func propWith(t *rapid.T, shape string) {
 	}
 	if info.Shape != "" {
 		classes = append(classes, "shape_"+info.Shape)
+	}
+	if sessA.Reloads+sessB.Reloads > 0 {
+		classes = append(classes, "index_reloaded_from_db")
 	}
 	st.Case(stats.Hash(scen.Describe(ref), ref.Weights), partialFork && trueCnt > 0 && falseCnt > 0, classes...)
 	st.Class("pairs", int64(pairs))
